@@ -91,7 +91,33 @@ def no_match_always(builder):
     return True
 
 
+def matches_iter_facts(models):
+    """models.rs: does Matches::next need the context (`self.ctx?`), does len() read the inner
+    iterator, does Pattern::matches derive the inner iterator from the context?"""
+    impl_it = impl_block(models, r"impl<'a,\s*'r>\s+Iterator\s+for\s+Matches<'a,\s*'r>\s*\{", "impl Iterator for Matches")
+    nxt = re.sub(r"\s+", "", strip_comments(fn_body(impl_it, "next", "Matches::next")))
+    if "self.iterator.as_mut()?" not in nxt or "iter.next()?" not in nxt:
+        raise TranslateError("Matches::next: expected `self.iterator.as_mut()?` and `iter.next()?`")
+    needs_ctx = "self.ctx?" in nxt
+    if needs_ctx and nxt.index("self.ctx?") > nxt.index("iter.next()?"):
+        raise TranslateError("Matches::next: `iter.next()?` is now evaluated before `self.ctx?` (the model does not advance on a missing context)")
+    impl_len = impl_block(models, r"impl\s+ExactSizeIterator\s+for\s+Matches<'_,\s*'_>\s*\{", "impl ExactSizeIterator for Matches")
+    ln = re.sub(r"\s+", "", strip_comments(fn_body(impl_len, "len", "Matches::len")))
+    if ln != "self.iterator.as_ref().map_or(0,|it|it.len())":
+        raise TranslateError(f"Matches::len: unexpected body {ln!r}")
+    m = re.search(r"pub\s+fn\s+matches\s*\(\s*&self\s*\)\s*->\s*Matches<'a,\s*'r>\s*\{", models)
+    if not m:
+        raise TranslateError("Pattern::matches not found")
+    body = re.sub(r"\s+", "", strip_comments(models[m.end():match_brace(models, m.end() - 1)]))
+    if not body.startswith("Matches{ctx:self.ctx,iterator:"):
+        raise TranslateError("Pattern::matches: expected `Matches { ctx: self.ctx, iterator: ... }`")
+    from_ctx = body.startswith("Matches{ctx:self.ctx,iterator:self.ctx.and_then(|ctx|{ctx.tracker.pattern_matches.get(self.pattern_id).map(|matches|matches.iter())})")
+    return needs_ctx, from_ctx
+
+
 def main():
+    models = src("lib/src/models.rs")
+    needs_ctx, from_ctx = matches_iter_facts(models)
     scanner = src("lib/src/scanner/mod.rs")
     builder = src("lib/src/wasm/builder.rs")
     m = ctor_formulas(scanner, "MatchingRules")
@@ -113,6 +139,11 @@ Definition matching_len_p  (rules : list rule) (c : ctx) : Z := {m['len_private'
 (* NonMatchingRules::new *)
 Definition nonmatching_len_np (rules : list rule) (c : ctx) : Z := {n['len_non_private']}.
 Definition nonmatching_len_p  (rules : list rule) (c : ctx) : Z := {n['len_private']}.
+
+(* models.rs Matches::next reads `self.ctx?` before advancing; Pattern::matches builds the
+   inner iterator with `self.ctx.and_then(..pattern_matches.get(id).map(iter))` *)
+Definition matches_next_needs_ctx : bool := {str(needs_ctx).lower()}.
+Definition matches_iter_from_ctx : bool := {str(from_ctx).lower()}.
 """
     write_if_changed("TrackingGen.v", text)
 
